@@ -392,6 +392,39 @@ fn trace_of<A: Clone>(nodes: &[Node<A>], mut i: u32) -> Vec<A> {
 
 /// Breadth-first exhaustive exploration of all states reachable from `init`.
 /// States are identified by their full key string (no hash compaction => no collisions).
+// ------------------------------------------------------------------------------------------
+// Wall budget for the state-graph explorations of one check. State identity includes the full
+// fingerprint of the real object, so an implementation that keeps schedule-dependent bookkeeping
+// (statistics counters, a write count) has graphs that grow with every call sequence instead of
+// closing. The per-graph state caps bound each graph; this budget bounds their sum: once it is
+// used up the remaining graphs are explored from their initial state only as far as one expansion,
+// the run is reported as NOT exhaustive ("caps_hit"), and whatever was found until then stands.
+// On the unchanged tree the budget is 8 to 100 times what the check needs.
+
+static EXPLORE_DEADLINE_MS: AtomicU64 = AtomicU64::new(u64::MAX);
+static EXPLORE_T0: std::sync::OnceLock<std::time::Instant> = std::sync::OnceLock::new();
+
+pub fn set_explore_budget(secs: u64) {
+    let t0 = EXPLORE_T0.get_or_init(std::time::Instant::now);
+    EXPLORE_DEADLINE_MS.store(t0.elapsed().as_millis() as u64 + secs * 1000, Ordering::Relaxed);
+}
+
+static EXPLORE_EXHAUSTED: AtomicBool = AtomicBool::new(false);
+
+pub fn explore_budget_exhausted() -> bool {
+    if EXPLORE_EXHAUSTED.load(Ordering::Relaxed) {
+        return true;
+    }
+    let over = match EXPLORE_T0.get() {
+        Some(t0) => t0.elapsed().as_millis() as u64 > EXPLORE_DEADLINE_MS.load(Ordering::Relaxed),
+        None => false,
+    };
+    if over {
+        EXPLORE_EXHAUSTED.store(true, Ordering::Relaxed);
+    }
+    over
+}
+
 pub fn explore<S: Sys>(init: S, lim: &Limits) -> Explored<S> {
     let mut seen: HashMap<String, u32> = HashMap::new();
     let mut nodes: Vec<Node<S::Act>> = Vec::new();
@@ -560,7 +593,7 @@ pub fn explore<S: Sys>(init: S, lim: &Limits) -> Explored<S> {
             }
         }
 
-        if nodes.len() as u64 > lim.max_states {
+        if nodes.len() as u64 > lim.max_states || EXPLORE_EXHAUSTED.load(Ordering::Relaxed) || (out.states % 64 == 0 && explore_budget_exhausted()) {
             out.cap_hit = true;
             break;
         }
